@@ -57,6 +57,19 @@ pub fn generate(tier: &str, rng: &mut Prng) -> Vec<Case> {
         let m = rng.bytes(l);
         push(&m, &mut ops);
     }
+    // strings that share a long prefix and the length, one right after the other on the same worker (a memo keyed by a
+    // prefix of the input, e.g. "the salt identifies the string", returns the previous point)
+    for plen in [8usize, 40, 41, 64, 136, 200] {
+        let pre = rng.bytes(plen);
+        for tl in [1usize, 15] {
+            let (a, b) = (rng.bytes(tl), rng.bytes(tl));
+            for t in [&a, &b, &a] {
+                let mut m = pre.clone();
+                m.extend_from_slice(t);
+                push(&m, &mut ops);
+            }
+        }
+    }
     let count = if thorough { 6000 } else { 250 };
     for _ in 0..count {
         let l = rng.range(0, 300) as usize;
